@@ -368,6 +368,20 @@ where
         let welcome_preview = self.preview_welcome(&welcome.wrapper_event_id, &welcome.event)?;
         let mls_group = welcome_preview.staged_welcome.into_group(&self.provider)?;
 
+        // The user may have been a member of this group before (removed, now invited again).
+        // Proposals queued during that earlier membership are still in OpenMLS' proposal queue,
+        // which joining does not touch: drop them, or the next load of the group would present
+        // them as pending and the next commit would carry them along.
+        {
+            use openmls_traits::storage::StorageProvider as _;
+            self.provider
+                .storage()
+                .clear_proposal_queue::<GroupId, openmls::prelude::hash_ref::ProposalRef>(
+                    mls_group.group_id(),
+                )
+                .map_err(|e| Error::Welcome(e.to_string()))?;
+        }
+
         // Update the group to active
         if let Some(mut group) = self.get_group(&mls_group.group_id().into())? {
             let mls_group_id = group.mls_group_id.clone();
